@@ -854,6 +854,8 @@ void OPNMIDIplay::realTime_BankChangeLSB(uint8_t channel, uint8_t lsb)
 {
     if(static_cast<size_t>(channel) >= m_midiChannels.size())
         channel = channel % 16;
+    if(lsb > 127) // Same range as the CC32 path: bit 7 would survive the "LSB cleared" fallback
+        lsb = 127;
     m_midiChannels[channel].bank_lsb = lsb;
     if((m_synthMode & Mode_GS) == 0)// Don't use XG drums on GS synth mode
         m_midiChannels[channel].is_xg_percussion = isXgPercChannel(m_midiChannels[channel].bank_msb, m_midiChannels[channel].bank_lsb);
@@ -863,6 +865,8 @@ void OPNMIDIplay::realTime_BankChangeMSB(uint8_t channel, uint8_t msb)
 {
     if(static_cast<size_t>(channel) >= m_midiChannels.size())
         channel = channel % 16;
+    if(msb > 127) // Same range as the CC0 path: bit 7 would alias the percussion tag of the bank key
+        msb = 127;
     m_midiChannels[channel].bank_msb = msb;
     if((m_synthMode & Mode_GS) == 0)// Don't use XG drums on GS synth mode
         m_midiChannels[channel].is_xg_percussion = isXgPercChannel(m_midiChannels[channel].bank_msb, m_midiChannels[channel].bank_lsb);
@@ -872,8 +876,9 @@ void OPNMIDIplay::realTime_BankChange(uint8_t channel, uint16_t bank)
 {
     if(static_cast<size_t>(channel) >= m_midiChannels.size())
         channel = channel % 16;
-    m_midiChannels[channel].bank_lsb = uint8_t(bank & 0xFF);
-    m_midiChannels[channel].bank_msb = uint8_t((bank >> 8) & 0xFF);
+    const uint8_t lsb = uint8_t(bank & 0xFF), msb = uint8_t((bank >> 8) & 0xFF);
+    m_midiChannels[channel].bank_lsb = (lsb > 127) ? 127 : lsb;
+    m_midiChannels[channel].bank_msb = (msb > 127) ? 127 : msb;
     if((m_synthMode & Mode_GS) == 0)// Don't use XG drums on GS synth mode
         m_midiChannels[channel].is_xg_percussion = isXgPercChannel(m_midiChannels[channel].bank_msb, m_midiChannels[channel].bank_lsb);
 }
